@@ -91,7 +91,7 @@ def gen_longname(rng):
     """names around the sizes at which a fixed buffer would cut them (NAME_MAX 255, PATH_MAX 4096, BUFSIZ 8192): the long
     name and a proper prefix of it are both defined with different values, or only the prefix is (the long one must then be
     an unknown variable); referenced from the template and from inside a value (seeded/C09-3: a stack buffer of PATH_MAX)"""
-    n = rng.choice([254, 255, 256, 1023, 1024, 4094, 4095, 4096, 4097, 8191, 8192, 8200])
+    n = rng.choice([254, 255, 256, 1023, 1024, 1025, 4094, 4095, 4096, 4097, 8191, 8192, 8193, 8200])
     stem = (b'n' + b'abcdefghij' * 900)[:n]
     cut = rng.choice([n - 1, n - 2, 255, 4095, 1023])
     cut = max(1, min(cut, n - 1))
@@ -104,7 +104,291 @@ def gen_longname(rng):
     return {'env': [[k.hex(), v.hex()] for k, v in env], 'template': t.hex(), 'longname': n}
 
 
-def gen_case(rng):
+# ---------------------------------------------------------------------------------------------------------------------
+# Boundary SIZE / SHAPE classes.  Every class has a deterministic builder b_<kind>(params, limit) -> (env, template,
+# class names); the generator draws the parameters from the lists below with a small probability and corpus/C09/b09_*.json
+# holds one descriptor {"boundary": kind, "params": {...}} per class (a corpus file may hold a LIST of descriptors; they are
+# expanded by expand_corpus, so a 64 KiB value costs one line of JSON).  Sizes are the ones at which a fixed buffer
+# (NAME_MAX 255, 1 KiB = initial size of the output / line buffers, PATH_MAX 4096, 8 KiB = initial size of the input
+# buffer of arena_buffer_read and BUFSIZ, 64 KiB = pipe capacity) or a power-of-two growth step would cut or misplace data.
+#
+# CAPS (measured on the extracted model, driver `ip`, one question; the check asks two per case):
+#   * variable NAME: InterpDefs.name_scan collects the name with `acc ++ [c]`, quadratic: 4096 bytes 0.1 s, 8192 0.5 s,
+#     16384 3.6 s, 32768 26 s, 65536 180 s.  Names are therefore capped at 8193 bytes (the 65535/65536 class of the brief
+#     is NOT reachable for names in reasonable time; values, lines and inputs reach it).
+#   * VALUE / LINE / INPUT: linear (131000 bytes 0.5 s, 1 MiB 8 s with an unlimited stack; the default 8 MiB stack
+#     overflows at ~256 KiB, hence run_driver below raises the limit).  Capped at 65537 bytes in the generator plus one
+#     corpus value of 131000 bytes (`-v a=<value>` is one argv string: the kernel's MAX_ARG_STRLEN is 131072).
+#   * counts (variables, references, lines) up to 257; lines also 4096 and 65537 (line numbers are an int).
+SZ_NAME = [1, 2, 254, 255, 256, 257, 1023, 1024, 1025, 4095, 4096, 4097, 8191, 8192, 8193]
+SZ_VALUE = [0, 1, 127, 128, 129, 254, 255, 256, 1022, 1023, 1024, 1025, 2047, 2048, 2049, 4095, 4096, 4097,
+            8191, 8192, 8193, 16383, 16384, 16385, 65535, 65536, 65537]
+SZ_OFFSET = [0, 1022, 1023, 1024, 4094, 4095, 4096, 8190, 8191, 8192, 12287, 12288, 16383, 16384, 65535, 65536]
+COUNTS = [0, 1, 2, 15, 16, 17, 31, 32, 33, 63, 64, 65, 127, 128, 129, 255, 256, 257]
+BANDS = [(0, 0), (1, 2), (15, 17), (31, 33), (63, 65), (127, 129), (254, 257), (1022, 1025), (2047, 2049), (4094, 4097),
+         (8190, 8193), (12287, 12289), (16383, 16385), (65535, 65537)]
+SHAPES = ['empty', 'newline_only', 'no_final_newline', 'crlf', 'cr_in_name', 'nul_mid', 'nul_first', 'nul_in_name', 'nul_last',
+          'dollar_last', 'dollar_eol', 'open_last', 'open_name_last', 'empty_name', 'close_only', 'dollar_dollar',
+          'brace_space', 'nested_syntax', 'value_newline', 'value_equals']
+
+
+def band(n):
+    for lo, hi in BANDS:
+        if lo <= n <= hi:
+            return str(lo) if lo == hi else '%d..%d' % (lo, hi)
+    return 'other (%s)' % ('< 1 KiB' if n < 1024 else '< 64 KiB' if n < 65536 else '>= 64 KiB')
+
+
+def fill(n, salt=0):
+    """n ordinary bytes with period 37 (prime to every power of two: data moved by a block size is noticed)"""
+    a = b'abcdefghijklmnopqrstuvwxyz0123456789_'
+    a = a[salt % 37:] + a[:salt % 37]
+    return (a * (n // 37 + 1))[:n]
+
+
+def b_name(p, limit):
+    """a name of n bytes; OTHER names defined BEFORE it (a lookup that cuts or narrows the name finds them first): one of
+    the same length that differs in byte diff_at only (-1 = the last byte), a proper prefix of cut bytes, one that is one
+    byte longer.  define_long false: only the others exist, the reference must be an unknown variable."""
+    n = max(1, p['n'])
+    stem = (b'n' + fill(n))[:n]
+    cls = ['name length ' + band(n)]
+    others = []
+    if p.get('diff_at') is not None:
+        i = p['diff_at'] % n
+        others.append((stem[:i] + (b'Y' if stem[i:i + 1] == b'X' else b'X') + stem[i + 1:], b'<differs at %d>' % i))
+        cls.append('names differ only in the last byte' if i == n - 1 else
+                   'names differ only beyond byte %s' % ('4095' if i >= 4095 else '1023' if i >= 1023 else '255') if i >= 255 else
+                   'names differ only in an early byte')
+    if p.get('cut') and n > 1:
+        c = max(1, min(p['cut'], n - 1))
+        others.append((stem[:c], b'<prefix %d>' % c))
+        cls.append('name and a proper prefix of it both defined')
+    if p.get('longer'):
+        others.append((stem + b'z', b'<one longer>'))
+        cls.append('name and a one byte longer one both defined')
+    env = others + ([(stem, b'LONG')] if p.get('define_long', True) else [])
+    if not p.get('define_long', True):
+        cls.append('only the near-miss names defined (unknown variable)')
+    if p.get('long_first'):
+        env.reverse()
+    where = p.get('where', 'template')
+    if where == 'value':
+        env.append((b'w', b'<${' + stem + b'}>'))
+        t = b'${w}\n'
+    else:
+        # the near-miss names are referenced too unless refs_others is false (every occurrence of a long name costs the
+        # model quadratic time: the big sizes reference only the name itself)
+        t = b'A=${' + stem + b'}' + (b''.join(b' O=${' + o + b'}' for o, _ in others) if p.get('refs_others', True) else b'') + b'\n'
+    return env, t, cls
+
+
+def b_value(p, limit):
+    """a value of n bytes, referenced refs times, reached through `via` intermediate values; tail: the value ends in a
+    reference (`${b}` ends exactly at byte n), a bare `$`, an unterminated `${`"""
+    n, refs, via, tail = p['n'], p.get('refs', 1), p.get('via', 0), p.get('tail', 'plain')
+    v = fill(n, p.get('salt', 0))
+    cls = ['value length ' + band(n)]
+    if tail == 'ref' and n >= 4:
+        v = v[:n - 4] + b'${b}'
+        cls.append('value ends in a reference')
+    elif tail == 'dollar' and n >= 1:
+        v = v[:n - 1] + b'$'
+        cls.append('value ends in a bare $')
+    elif tail == 'open' and n >= 2:
+        v = v[:n - 2] + b'${'
+        cls.append('value ends in an unterminated ${')
+    env = [(b'a', v), (b'b', b'B')]
+    top = b'a'
+    for i in range(min(via, max(0, limit - (4 if tail == 'ref' else 3)))):
+        nm = b'c%d' % i
+        env.insert(0, (nm, b'(${' + top + b'})'))
+        top = nm
+    if refs > 1:
+        cls.append('long value referenced several times')
+    t = b'<' + b'|'.join([b'${' + top + b'}'] * refs) + b'>' + (b'\n' if p.get('nl', True) else b'')
+    return env, t, cls
+
+
+def b_offset(p, limit):
+    """a token starting exactly at byte `off` of the INPUT (8 KiB initial read buffer growing by halves, 64 KiB pipe), the
+    bytes before it being one long line or 64-byte lines"""
+    off, what = p['off'], p.get('what', 'ref')
+    if p.get('lines'):
+        pre = (fill(63) + b'\n') * (off // 64) + fill(off % 64, 5)
+    else:
+        pre = fill(off)
+    tok = {'ref': b'${a}', 'dollar': b'$', 'open': b'${a', 'empty': b'${}', 'unknown': b'${zz}', 'ref2': b'${a}${b}'}[what]
+    t = pre + tok + (b' tail ${b}\n' if p.get('post', True) else b'')
+    return [(b'a', b'A'), (b'b', b'')], t, ['token at input offset ' + band(off), 'token at a block boundary: ' + what]
+
+
+def b_line(p, limit):
+    """one line of n bytes (without its newline) with a reference at its start / middle / very end, between two other lines"""
+    n, place = p['n'], p.get('place', 'end')
+    ref = b'${a}'
+    if n < len(ref):
+        line = fill(n)
+    elif place == 'start':
+        line = ref + fill(n - 4)
+    elif place == 'mid':
+        line = fill((n - 4) // 2) + ref + fill(n - 4 - (n - 4) // 2, 9)
+    else:
+        line = fill(n - 4) + ref
+    t = (b'first ${a}\n' if p.get('before', True) else b'') + line + (b'\n' if p.get('nl', True) else b'') + \
+        (b'last ${a}' + (b'\n' if p.get('nl', True) else b'') if p.get('after') else b'')
+    return [(b'a', p.get('value', 'A').encode())], t, ['line length ' + band(n)] + ([] if p.get('nl', True) else ['no final newline'])
+
+
+def b_lines(p, limit):
+    """n lines, the failing one (if any) the first or the very last; LF or CRLF"""
+    n, err = p['n'], p.get('err', 'none')
+    eol = b'\r\n' if p.get('crlf') else b'\n'
+    ls = [b'%d ${a}' % i for i in range(n)]
+    if n and err == 'last':
+        ls[-1] = b'$'
+    elif n and err == 'first':
+        ls[0] = b'${zz}'
+    t = eol.join(ls) + (eol if n and p.get('nl', True) else b'')
+    cls = ['number of lines ' + band(n)]
+    if p.get('crlf'):
+        cls.append('CRLF line ends')
+    if n and not p.get('nl', True):
+        cls.append('no final newline')
+    if n and err != 'none':
+        cls.append('malformed reference on the %s line' % err)
+    return [(b'a', b'A')], t, cls
+
+
+def b_shape(p, limit):
+    w = p['which']
+    env = [(b'a', b'A'), (b'b', b'')]
+    t = {'empty': b'', 'newline_only': b'\n' * p.get('k', 3), 'no_final_newline': b'x ${a}', 'crlf': b'${a}\r\n${a} x\r\n\r\n',
+         'cr_in_name': b'${a\r}\n', 'nul_mid': b'x ${a} \x00 ${zz} $\nnext ${a}\n', 'nul_first': b'\x00${\n${a}\n',
+         'nul_in_name': b'ok\n${a\x00}\n', 'nul_last': b'${a}\n\x00', 'dollar_last': b'x ${a}\n$', 'dollar_eol': b'x$\n${a}\n',
+         'open_last': b'${a}\n${', 'open_name_last': b'${a}\n${a', 'empty_name': b'a${}b\n', 'close_only': b'}${a}}\n',
+         'dollar_dollar': b'$${a}\n', 'brace_space': b'$ {a}\n', 'nested_syntax': b'${a${b}}\n',
+         'value_newline': b'<${n}>\n', 'value_equals': b'${e} ${e=f}\n'}[w]
+    if w == 'value_newline':
+        env.append((b'n', b'one\ntwo ${a}\n'))
+    if w == 'value_equals':
+        env.append((b'e', b'f=g'))       # -v e=f=g defines e, never "e=f"
+    return env, t, ['shape: ' + w.replace('_', ' ')]
+
+
+def b_depth(p, limit):
+    """levels = limit - 2 + delta values below the template: delta 0 is the deepest chain that works, +1 the first that is
+    too deep, -1 one less; the reference sits behind `pad` bytes and is repeated (the depth must be restored each time)"""
+    delta, pad, rep = p.get('delta', 0), p.get('pad', 0), p.get('repeats', 1)
+    levels = max(1, limit - 2 + delta)
+    env = []
+    for i in range(levels):
+        env.append((b'd%d' % i, b'[${d%d}]' % (i + 1) if i + 1 < levels else (b'${d%d}' % i if p.get('self') else b'leaf')))
+    t = fill(pad) + b' '.join([b'${d0}'] * rep) + (b'\n${d0}' if p.get('again') else b'') + b'\n'
+    cls = ['nesting depth limit%+d' % (levels + 2 - limit) + (' ending in a self reference' if p.get('self') else '')]
+    if rep > 1:
+        cls.append('deep chain referenced %s times on one line' % band(rep))
+    return env, t, cls
+
+
+def b_envcount(p, limit):
+    """n variables defined (-v n times: the vector of robsd-config and the variable list of the configuration grow)"""
+    n, ref = p['n'], p.get('ref', 'all')
+    env = [(b'v%d' % i, b'val%d;' % i) for i in range(n)]
+    idx = {'first': [0], 'last': [n - 1], 'mid': [n // 2], 'missing': [n], 'all': list(range(n)), 'rev': list(range(n - 1, -1, -1))}[ref]
+    t = b''.join(b'${v%d}' % max(0, i) for i in idx) + b'\n'
+    return env, t, ['number of variables ' + band(n), 'variables referenced: ' + ref]
+
+
+def b_refs(p, limit):
+    """n references on one line"""
+    n = p['n']
+    env = [(b'a', b'A'), (b'b', b''), (b'c', b'${a}c')]
+    names = [b'a'] if p.get('same') else [b'a', b'b', b'c']
+    t = p.get('sep', '').encode().join(b'${' + names[i % len(names)] + b'}' for i in range(n)) + (b'' if p.get('nl', True) is False else b'\n')
+    return env, t, ['references on one line ' + band(n)]
+
+
+RELATED = {'prefix': [b'p', b'pr', b'pre', b'pref', b'prefi', b'prefix', b'prefix-', b'prefix-x'],
+           'case': [b'abc', b'ABC', b'Abc', b'aBC', b'abC', b'aBc'],
+           'chars': [b'a-b', b'a.b', b'a b', b'a_b', b'a,b', b'a/b', b'a{b', b'a$b', b'a:b', b'-', b'.', b' ', b'a\tb', b'a"b', b"a'b", b'a\\b'],
+           'adjacent': [b'k', b'k\x01', b'k\x7f', b'k\x80', b'k\xff', b'j\xff', b'l', b'k0', b'k/'],
+           'equals': [b'q', b'q=r', b'q=', b'=q']}        # names with '=': definable in process only (ignore lane)
+
+
+def b_related(p, limit):
+    """names that are prefixes of each other / differ in case / contain the separator characters / are byte-order
+    neighbours, all defined with different values, in the given or the reverse order, each referenced once"""
+    names = list(RELATED[p['set']])
+    env = [(nm, b'<%d>' % i) for i, nm in enumerate(names)]
+    if p.get('rev'):
+        env.reverse()
+    if p.get('drop') is not None and env:
+        del env[p['drop'] % len(env)]                    # one of them is NOT defined: its neighbours must not answer for it
+    order = names[::-1] if p.get('refrev') else names
+    t = b' '.join(b'${' + nm + b'}' for nm in order) + b'\n'
+    return env, t, ['related names: ' + p['set']] + (['related names: one of the set undefined'] if p.get('drop') is not None else [])
+
+
+BUILDERS = {'name': b_name, 'value': b_value, 'offset': b_offset, 'line': b_line, 'lines': b_lines, 'shape': b_shape,
+            'depth': b_depth, 'envcount': b_envcount, 'refs': b_refs, 'related': b_related}
+
+
+def boundary_case(kind, params, limit):
+    env, t, cls = BUILDERS[kind](params, limit)
+    return {'env': [[k.hex(), v.hex()] for k, v in env], 'template': t.hex(), 'boundary': kind, 'params': params, 'class': cls}
+
+
+def gen_boundary(rng, limit, inproc=False):
+    """inproc: the case goes to the interpolate_str lane (names may hold '='; -v cannot define those)"""
+    kind = rng.choice(['name', 'name', 'value', 'value', 'offset', 'line', 'lines', 'shape', 'depth', 'envcount', 'refs', 'related'])
+    if kind == 'name':
+        # names of >= 4095 bytes cost the model 0.1-0.5 s per question: one in four
+        n = rng.choice(SZ_NAME if rng.random() < 0.25 else SZ_NAME[:9])
+        p = {'n': n, 'where': rng.choice(['template', 'template', 'value'])}
+        k = rng.random()
+        if k < 0.45:
+            p['diff_at'] = rng.choice([-1, -1, 255, 256, 1023, 1024, 4095, 4096, 0, n // 2])
+        elif k < 0.7:
+            p['cut'] = rng.choice([n - 1, n - 2, 255, 1023, 4095, 1])
+        elif k < 0.8:
+            p['longer'] = True
+        else:
+            p.update(diff_at=-1, cut=n - 1, longer=True)
+        p['define_long'] = rng.random() < 0.7
+        p['long_first'] = rng.random() < 0.3
+        p['refs_others'] = n < 4000
+    elif kind == 'value':
+        p = {'n': rng.choice(SZ_VALUE), 'refs': rng.choice([1, 1, 2, 3]), 'via': rng.choice([0, 0, 1, 2]),
+             'tail': rng.choice(['plain', 'plain', 'ref', 'dollar', 'open']), 'nl': rng.random() < 0.8, 'salt': rng.randrange(37)}
+    elif kind == 'offset':
+        p = {'off': rng.choice(SZ_OFFSET), 'what': rng.choice(['ref', 'ref', 'ref2', 'dollar', 'open', 'empty', 'unknown']),
+             'lines': rng.random() < 0.5, 'post': rng.random() < 0.7}
+    elif kind == 'line':
+        p = {'n': rng.choice(SZ_VALUE), 'place': rng.choice(['start', 'mid', 'end']), 'nl': rng.random() < 0.7,
+             'before': rng.random() < 0.5, 'after': rng.random() < 0.5, 'value': rng.choice(['A', '', 'long value ' * 30])}
+    elif kind == 'lines':
+        p = {'n': rng.choice(COUNTS + [4096]), 'err': rng.choice(['none', 'none', 'last', 'first']), 'crlf': rng.random() < 0.25,
+             'nl': rng.random() < 0.7}
+    elif kind == 'shape':
+        p = {'which': rng.choice(SHAPES)}
+    elif kind == 'depth':
+        p = {'delta': rng.choice([-1, 0, 0, 1]), 'pad': rng.choice([0, 1, 1020, 4093]), 'repeats': rng.choice([1, 1, 2, 16, 17, 256]),
+             'self': rng.random() < 0.2, 'again': rng.random() < 0.3}
+    elif kind == 'envcount':
+        p = {'n': rng.choice(COUNTS), 'ref': rng.choice(['first', 'last', 'mid', 'missing', 'all', 'all', 'rev'])}
+    elif kind == 'refs':
+        p = {'n': rng.choice(COUNTS + [1024]), 'same': rng.random() < 0.4, 'sep': rng.choice(['', '', ' ', '}{'])}
+    else:
+        p = {'set': rng.choice(['prefix', 'case', 'chars', 'adjacent'] + (['equals', 'equals'] if inproc else [])), 'rev': rng.random() < 0.5, 'refrev': rng.random() < 0.3}
+        if rng.random() < 0.4:
+            p['drop'] = rng.randrange(8)
+    return boundary_case(kind, p, limit)
+
+
+def gen_case(rng, limit=5, inproc=False):
+    if rng.random() < 0.10:
+        return gen_boundary(rng, limit, inproc)
     if rng.random() < 0.06:
         return gen_fanout(rng)
     if rng.random() < 0.03:
@@ -150,11 +434,47 @@ def run_cmd(impl, conf, case, timeout=TIME_LIMIT):
 
 
 def argv_ok(case):
+    """can the environment be handed over?  Through -v: no NUL, no '=' in the name, no empty name.  In process (cases with
+    an `ignore` key: the harness gets hex strings) only NUL and the empty name are impossible."""
     for k, v in case['env']:
         kb, vb = bytes.fromhex(k), bytes.fromhex(v)
-        if b'\0' in kb or b'\0' in vb or b'=' in kb or not kb:
+        if b'\0' in kb or b'\0' in vb or not kb or (b'=' in kb and 'ignore' not in case):
             return False
     return True
+
+
+def run_driver(path, lines, timeout=900, workers=6):
+    """common.run_driver with an unlimited stack: the extracted list functions are not tail recursive and results of
+    more than ~256 KiB overflow the default 8 MiB stack (the boundary classes reach 64 KiB values referenced 3 times).
+    The questions are independent: they are dealt out to `workers` driver processes (the model, not the implementation,
+    is what takes the time of this check) and the answers put back in order."""
+    def one(ls):
+        if not ls:
+            return []
+        r = subprocess.run(['bash', '-c', 'ulimit -s unlimited 2>/dev/null || ulimit -s hard; exec "$0"', path],
+                           input='\n'.join(ls) + '\n', stdout=subprocess.PIPE, stderr=subprocess.PIPE, text=True, timeout=timeout)
+        out = r.stdout.split('\n')
+        if out and out[-1] == '':
+            out.pop()
+        if len(out) != len(ls):
+            raise RuntimeError('driver %s: %d answers for %d questions (rc=%s, stderr=%s)' % (path, len(out), len(ls), r.returncode, r.stderr[-500:]))
+        return out
+    if len(lines) < 4 * workers:
+        return one(lines)
+    with ThreadPoolExecutor(workers) as ex:
+        parts = list(ex.map(one, [lines[i::workers] for i in range(workers)]))
+    out = [None] * len(lines)
+    for i, part in enumerate(parts):
+        out[i::workers] = part
+    return out
+
+
+def count_classes(res, c, lane):
+    """the input distribution shows every boundary class that was evaluated (generated or from the corpus)"""
+    for k in c.get('class', []):
+        res.count('class: ' + k)
+    if c.get('boundary'):
+        res.count('boundary cases, %s lane: %s' % (lane, c['boundary']))
 
 
 def evaluate(ctx, cases, res, limit):
@@ -171,9 +491,10 @@ def evaluate(ctx, cases, res, limit):
     for c, (rc, out, err) in zip(cases, obs):
         qs.append(' '.join(['cmd', str(limit)] + env_toks(c) + [c['template'] or '-']))
         qs.append(' '.join(['ok', str(limit), str(rc if rc >= 0 else 999), hexs(out)] + env_toks(c) + [c['template'] or '-']))
-    ans = common.run_driver(drv, qs)
+    ans = run_driver(drv, qs)
     for i, (c, (rc, out, err)) in enumerate(zip(cases, obs)):
         res.evaluations += 1
+        count_classes(res, c, 'robsd-config')
         lno, kind = classify(err)
         impl_s = '%d %s %d %s' % (rc, hexs(out), lno, kind)
         m = ans[2 * i]
@@ -226,7 +547,7 @@ def evaluate_str(ctx, impl, cases, res, limit):
     p = subprocess.run([exe], input=('\n'.join(lines) + '\n').encode(), stdout=subprocess.PIPE, stderr=subprocess.PIPE, timeout=300)
     outs = p.stdout.decode().split('\n')[:-1]
     errs = re.split(rb'#case \d+\n', p.stderr)[1:]
-    ans = common.run_driver(ctx.build_driver('ip'), qs)
+    ans = run_driver(ctx.build_driver('ip'), qs)
     if len(outs) != len(cases):
         res.oracle_failures.append({'case': cases[len(outs)] if len(outs) < len(cases) else None, 'signature': 'abnormal-termination',
                                     'what': 'interpolate_str harness died (status %s) at case %d' % (p.returncode, len(outs)), 'via': 'interpolate_str'})
@@ -244,6 +565,7 @@ def evaluate_str(ctx, impl, cases, res, limit):
             k = next((v for kk, v in KINDS.items() if msg.startswith(kk)), 'other')
         impl_s = o + ' ' + k
         res.count('str ignore=%d kind=%s' % (c['ignore'], k))
+        count_classes(res, c, 'interpolate_str')
         if impl_s != m:
             res.disagreements.append({'case': c, 'model': m, 'impl': impl_s, 'via': 'interpolate_str'})
             # the model is proved equal to the relation, so a differing implementation result violates the property
@@ -257,17 +579,38 @@ def source_limit():
     return int(re.search(r':= (\d+)\.', t_interp.generate(common.REPO)['Gen_Interp.v']).group(1))
 
 
-def load_corpus():
+def load_corpus(limit=5):
     """corpus/C09/*.json: cases WITHOUT an `ignore` key go through robsd-config, cases WITH one through the in-process
-    interpolate_str lane.  A missing directory is an error, not an empty corpus."""
+    interpolate_str lane.  A file holds one case or a list of cases; a case is either spelled out (env, template) or a
+    descriptor {"boundary": kind, "params": {...}} of a boundary class, expanded by boundary_case (deterministic).
+    A missing directory is an error, not an empty corpus."""
     import json, glob
     d = os.path.join(common.VERIF, 'corpus', 'C09')
     if not os.path.isdir(d):
         raise common.BuildFailure('corpus directory %s is missing' % d)
-    cs = [json.load(open(p)) for p in sorted(glob.glob(os.path.join(d, '*.json')))]
+    cs = []
+    for p in sorted(glob.glob(os.path.join(d, '*.json'))):
+        j = json.load(open(p))
+        for c in (j if isinstance(j, list) else [j]):
+            if 'boundary' in c and 'env' not in c:
+                if c['boundary'] not in BUILDERS:
+                    raise common.BuildFailure('%s: unknown boundary class %r' % (p, c['boundary']))
+                full = boundary_case(c['boundary'], c['params'], limit)
+                full['corpus'] = os.path.basename(p)
+                if 'ignore' in c:
+                    full['ignore'] = c['ignore']
+                c = full
+            cs.append(c)
     if not cs:
         raise common.BuildFailure('corpus directory %s holds no case' % d)
     return cs
+
+
+def inproc_copy(c, ignore):
+    """the same case for the interpolate_str lane: one string, newlines become blanks as for the generated cases"""
+    d = dict(c, ignore=ignore)
+    d['template'] = bytes.fromhex(c['template']).replace(b'\n', b' ').hex()
+    return d
 
 
 def run(ctx, n=None):
@@ -275,19 +618,23 @@ def run(ctx, n=None):
     res.rule = ('templates over {$,{,},newline,ordinary bytes} with references at start/end of line, malformed references; environments that are chains '
                 'of depth 1-6, cycles of length 1-3, diamonds, random, fan-out (every value refers F times to the next, up to three levels, results up to 20 kB; '
                 'long values referenced several times); through robsd-config -v k=v - (interpolate_file, 5 s limit) and in-process interpolate_str '
-                'with and without IGNORE_LOOKUP_ERRORS; corpus/C09 first; non-trivial = template contains a reference and the environment is non-empty; distinct by content hash')
+                'with and without IGNORE_LOOKUP_ERRORS; boundary size/shape classes (see "class: ..." in the distribution): names of 1-8193 bytes with '
+                'near-miss names defined first (same length differing in one late byte, proper prefix, one byte longer), values / lines of 0-65537 bytes '
+                '(one value of 131000), a token at input offsets 1 KiB-64 KiB, 0-257/4096/65537 lines with LF/CRLF/no final newline, NUL bytes, nesting at '
+                'limit-1/limit/limit+1, 0-257 variables, 0-257/1024 references on a line, prefix-related / case-differing / separator-holding / '
+                'byte-adjacent names; corpus/C09 first (every boundary descriptor also in process); non-trivial = template contains a reference and the environment is non-empty; distinct by content hash')
     try:
         limit = source_limit()
     except Exception as e:
         res.tie_errors.append('depth limit: %s' % e)
         limit = 5
     n = n or ctx.budget(1200, 40000)
-    corpus = load_corpus()
+    corpus = load_corpus(limit)
     res.count('corpus cases', len(corpus))
     bad = [c for c in corpus if not argv_ok(c)]
     if bad:
         res.tie_errors.append('corpus case cannot be passed through argv: %r' % bad[0].get('kind'))
-    cases = [c for c in corpus if 'ignore' not in c] + [gen_case(ctx.rng) for _ in range(n)]
+    cases = [c for c in corpus if 'ignore' not in c] + [gen_case(ctx.rng, limit) for _ in range(n)]
     dropped = len([c for c in cases if not argv_ok(c)])
     res.count('generated cases dropped (value or name not expressible as -v argument)', dropped)
     cases = [c for c in cases if argv_ok(c)]   # a NUL in the template (stdin) cuts that line: modelled by clines
@@ -296,11 +643,10 @@ def run(ctx, n=None):
     for i in range(0, len(cases), 10000):
         impl = evaluate(ctx, cases[i:i + 10000], res, limit)
     scases = [c for c in corpus if 'ignore' in c]
+    # every boundary descriptor of the corpus also goes through interpolate_str, IGNORE_LOOKUP_ERRORS alternating
+    scases += [inproc_copy(c, i % 2) for i, c in enumerate(c for c in corpus if c.get('boundary') and 'ignore' not in c)]
     for _ in range(n):
-        c = gen_case(ctx.rng)
-        c['ignore'] = ctx.rng.randint(0, 1)
-        c['template'] = bytes.fromhex(c['template']).replace(b'\n', b' ').hex()
-        scases.append(c)
+        scases.append(inproc_copy(gen_case(ctx.rng, limit, inproc=True), ctx.rng.randint(0, 1)))
     scases = [c for c in scases if argv_ok(c)]
     evaluate_str(ctx, impl, scases, res, limit)
     res.traces_validated = res.evaluations
